@@ -9,9 +9,65 @@ import (
 	. "verifharness/hlib"
 
 	"github.com/cnotch/ipchub/av/codec"
+	"github.com/cnotch/ipchub/av/codec/h264"
+	"github.com/cnotch/ipchub/av/format/rtp"
 	"github.com/cnotch/ipchub/av/format/sdp"
 	"github.com/cnotch/ipchub/media"
 )
+
+// a known-good H.264 parameter-set pair (the one of media/stream_test.go)
+var goodSps, _ = base64.StdEncoding.DecodeString("Z2QAH6zZQFAFuhAAAAMAEAAAAwPI8YMZYA==")
+var goodPps, _ = base64.StdEncoding.DecodeString("aO+8sA==")
+
+type frameSink struct{ n int }
+
+func (f *frameSink) WriteFrame(fr *codec.Frame) error { f.n++; return nil }
+
+func rtpOf(seq uint16, ts uint32, nal []byte) *rtp.Packet {
+	d := make([]byte, 12, 12+len(nal))
+	d[0], d[1] = 0x80, 96
+	d[2], d[3] = byte(seq>>8), byte(seq)
+	d[4], d[5], d[6], d[7] = byte(ts>>24), byte(ts>>16), byte(ts>>8), byte(ts)
+	d[11] = 1
+	p := &rtp.Packet{Channel: rtp.ChannelVideo, Data: append(d, nal...)}
+	if err := p.Header.Unmarshal(p.Data); err != nil {
+		panic(err)
+	}
+	return p
+}
+
+// usableAfterBadSps: "SDP with such parameter sets still yields a usable stream".  The SDP's
+// H.264 SPS was rejected by the parser; the sender then repeats VALID parameter sets in band
+// (as every camera does) followed by an IDR.  The stream is usable when the depacketizer takes
+// the valid sets: the metadata then shows the valid SPS's size and the IDR is handed on.
+func usableAfterBadSps(raw string) (ok bool, got string) {
+	defer func() {
+		if e := recover(); e != nil {
+			ok, got = false, "panic:"+trunc(fmt.Sprint(e), 60)
+		}
+	}()
+	var vm codec.VideoMeta
+	var am codec.AudioMeta
+	if err := sdp.ParseMetadata(raw, &vm, &am); err != nil {
+		return true, "sdp-rejected"
+	}
+	var want h264.RawSPS
+	if err := want.Decode(goodSps); err != nil {
+		return true, "good-sps-undecodable"
+	}
+	sink := &frameSink{}
+	dp := rtp.NewH264Depacketizer(&vm, sink)
+	idr := []byte{0x65, 0x88, 0x84, 0x00, 0x33, 0xff}
+	for r := 0; r < 2; r++ {
+		base := uint16(10 + 3*r)
+		dp.Depacketize(rtpOf(base, 9000*uint32(r+1), goodSps))
+		dp.Depacketize(rtpOf(base+1, 9000*uint32(r+1), goodPps))
+		dp.Depacketize(rtpOf(base+2, 9000*uint32(r+1), idr))
+	}
+	got = fmt.Sprintf("w=%d h=%d frames=%d spsIsValid=%v", vm.Width, vm.Height, sink.n, string(vm.Sps) == string(goodSps))
+	ok = vm.Width == want.Width() && vm.Height == want.Height() && sink.n >= 1 && string(vm.Sps) == string(goodSps)
+	return
+}
 
 // ---- sdp.ParseMetadata and media.NewStream with the parameter sets of a case ----
 
@@ -71,17 +127,17 @@ func buildSdp(kind string, ps []byte, v sdpVariant, audioCfg []byte, audioRate, 
 }
 
 type sdpOut struct {
-	outcome        string
-	vcodec         string
-	w, h           int
-	fixed          bool
-	fps            float64
-	clock          int
-	acodec         string
-	arate, ach     int
-	streamOK       bool
-	streamW        int
-	spsKept        bool
+	outcome    string
+	vcodec     string
+	w, h       int
+	fixed      bool
+	fps        float64
+	clock      int
+	acodec     string
+	arate, ach int
+	streamOK   bool
+	streamW    int
+	spsKept    bool
 }
 
 func stripStartCode(b []byte) []byte {
@@ -152,6 +208,15 @@ func checkSdp(c *Ctx, k caseT, kind string, ps []byte, dims string, specDims str
 	if strings.HasPrefix(o.outcome, "escaped-panic") {
 		c.Find(Finding{Kind: "oracle", Class: "sdp-panic-escapes", Case: cs, Impl: got, Spec: "a stream", Detail: "ParseMetadata/NewStream panicked on an SDP carrying this parameter set"})
 		return
+	}
+	if kind == "h264" && dims == "" && o.outcome == "ok" {
+		// the parser rejected this SPS: the stream must stay repairable by valid in-band sets
+		c.Count("sdp:usable-after-rejected-sps-probe")
+		if ok, how := usableAfterBadSps(raw); !ok {
+			c.Find(Finding{Kind: "oracle", Class: "sdp-rejected-sps-makes-stream-unusable", Case: cs, Impl: how,
+				Spec:   "valid in-band SPS/PPS are taken: metadata of the valid SPS, IDR handed on",
+				Detail: "SDP carrying a parameter set the parser rejects, followed by valid in-band parameter sets and an IDR"})
+		}
 	}
 	if !okMeta || !dimsOK {
 		kindF, class := "corr", "sdp-"+kind
